@@ -720,18 +720,30 @@ Qed.
 (* ====================== Part D: the second pass and the whole filter ====================== *)
 Definition tag_of (t : tagspec) : list bytes := [fst t] :: fst (snd t).
 
-Lemma copy_tag_fields_spec tags : forall Rest tail P h4 od ot D F w n,
+(* the recorded starts of the tag fields, whatever follows each closing bracket *)
+Fixpoint tstarts_k (tags : list tagspec) (Ks : list bytes) : list bytes :=
+  match tags, Ks with
+  | t :: r, K :: Kr => (fst t :: 34 :: 58 :: 91 :: tvals_text t ++ 93 :: K) :: tstarts_k r Kr
+  | _, _ => []
+  end.
+Fixpoint tag_Ks (tags : list tagspec) (Rest : list bytes) (tail : bytes) : list bytes :=
+  match tags with [] => [] | t :: r => members_close (map tpart r ++ Rest) tail :: tag_Ks r Rest tail end.
+Lemma tag_starts_k tags Rest tail : tag_starts tags Rest tail = tstarts_k tags (tag_Ks tags Rest tail) /\ length (tag_Ks tags Rest tail) = length tags.
+Proof. induction tags as [|t r [IH1 IH2]]; [split; reflexivity|]. cbn [tag_starts tag_Ks tstarts_k length]. rewrite IH1, IH2. split; reflexivity. Qed.
+
+Lemma copy_tag_fields_gen tags : forall Ks P h4 od ot D F w n, length Ks = length tags ->
   Forall tag_ok tags -> len h4 = 4 -> len od = 2 * w -> len ot = 2 * len tags -> w + len tags = n ->
   sumN (map tag_size (map tag_of tags)) <= len F ->
-  copy_tag_fields (tag_starts tags Rest tail) w (P ++ h4 ++ od ++ ot ++ D ++ F) (len P) (len P + 4 + 2 * n + len D)
+  copy_tag_fields (tstarts_k tags Ks) w (P ++ h4 ++ od ++ ot ++ D ++ F) (len P) (len P + 4 + 2 * n + len D)
   = Ok (P ++ h4 ++ (od ++ concat (map le16 (offsets (4 + 2 * n + len D) (map tag_of tags)))) ++ (D ++ concat (map enc_tag (map tag_of tags)))
           ++ drop (sumN (map tag_size (map tag_of tags))) F,
         len P + 4 + 2 * n + len D + sumN (map tag_size (map tag_of tags))).
 Proof.
-  induction tags as [|t r IH]; intros Rest tail P h4 od ot D F w n Hok Lh Lod Lot Hn Hcap.
-  - cbn [tag_starts copy_tag_fields map concat sumN offsets]. rewrite !app_nil_r, N.add_0_r.
+  induction tags as [|t r IH]; intros Ks P h4 od ot D F w n HKs Hok Lh Lod Lot Hn Hcap.
+  - cbn [tstarts_k copy_tag_fields map concat sumN offsets]. rewrite !app_nil_r, N.add_0_r.
     assert (ot = []) by (destruct ot; [reflexivity|unfold len in Lot; cbn [length] in Lot; lia]). subst ot. reflexivity.
-  - revert Hn. apply Forall_cons_iff in Hok. destruct Hok as [[HL H2] Hokr]. intros Hn. rewrite len_cons in Lot, Hn.
+  - destruct Ks as [|K0 Kr]; [discriminate HKs|]. cbn [length] in HKs. apply eq_add_S in HKs.
+    revert Hn. apply Forall_cons_iff in Hok. destruct Hok as [[HL H2] Hokr]. intros Hn. rewrite len_cons in Lot, Hn.
     cbn [map sumN] in Hcap. set (vs := fst (snd t)) in *. set (evs := snd (snd t)) in *. set (L := fst t) in *.
     assert (Hts : tag_size (tag_of t) = 5 + sumN (map str_size vs)).
     { unfold tag_size, tag_of. fold L vs. cbn [map sumN]. unfold str_size at 1. change (len [L]) with 1. lia. }
@@ -746,7 +758,7 @@ Proof.
     assert (LF3 : len F3 = len F - 5) by (rewrite EF3d, len_drop; lia).
     assert (HF3 : F3 = drop 5 F) by (rewrite EF3d, EF2d, EF1d, !drop_drop; reflexivity).
     set (endp := len P + 4 + 2 * n + len D) in *.
-    cbn [tag_starts copy_tag_fields]. fold L. fold evs.
+    cbn [tstarts_k copy_tag_fields]. fold L. fold evs.
     (* the offset slot *)
     rewrite Eot.
     replace (P ++ h4 ++ od ++ (o2 ++ ot') ++ D ++ F) with ((P ++ h4 ++ od) ++ o2 ++ (ot' ++ D ++ F)) by (rewrite <- !app_assoc; reflexivity).
@@ -787,7 +799,7 @@ Proof.
       with (P ++ h4 ++ (od ++ le16 (endp - len P)) ++ ot' ++ (D ++ enc_tag (tag_of t)) ++ drop (sumN (map str_size vs)) F3)
       by (rewrite <- Henc; subst pre; rewrite <- !app_assoc; reflexivity).
     replace (endp + 2 + 3 + sumN (map str_size vs)) with (len P + 4 + 2 * n + len (D ++ enc_tag (tag_of t))) by (rewrite len_app, len_enc_tag, Hts; subst endp; lia).
-    rewrite (IH Rest tail P h4 (od ++ le16 (endp - len P)) ot' (D ++ enc_tag (tag_of t)) (drop (sumN (map str_size vs)) F3) (w + 1) n Hokr Lh).
+    rewrite (IH Kr P h4 (od ++ le16 (endp - len P)) ot' (D ++ enc_tag (tag_of t)) (drop (sumN (map str_size vs)) F3) (w + 1) n HKs Hokr Lh).
     + cbn [map concat sumN offsets]. rewrite Hts, HF3, !drop_drop, !len_app, len_enc_tag, Hts.
       replace (endp - len P) with (4 + 2 * n + len D) by (subst endp; lia).
       rewrite <- !app_assoc.
@@ -800,6 +812,17 @@ Proof.
     + exact Lot'.
     + lia.
     + rewrite len_drop. lia.
+Qed.
+
+Lemma copy_tag_fields_spec tags : forall Rest tail P h4 od ot D F w n,
+  Forall tag_ok tags -> len h4 = 4 -> len od = 2 * w -> len ot = 2 * len tags -> w + len tags = n ->
+  sumN (map tag_size (map tag_of tags)) <= len F ->
+  copy_tag_fields (tag_starts tags Rest tail) w (P ++ h4 ++ od ++ ot ++ D ++ F) (len P) (len P + 4 + 2 * n + len D)
+  = Ok (P ++ h4 ++ (od ++ concat (map le16 (offsets (4 + 2 * n + len D) (map tag_of tags)))) ++ (D ++ concat (map enc_tag (map tag_of tags)))
+          ++ drop (sumN (map tag_size (map tag_of tags))) F,
+        len P + 4 + 2 * n + len D + sumN (map tag_size (map tag_of tags))).
+Proof.
+  intros Rest tail P h4 od ot D F w n. destruct (tag_starts_k tags Rest tail) as [E L]. rewrite E. apply copy_tag_fields_gen. exact L.
 Qed.
 
 (* an optional hex array of the second pass, uniformly in "present or not" *)
